@@ -1,2 +1,74 @@
-(* C07 part (a) — placeholder until the theorem list is final *)
-From PV Require Import DerivSpec.
+(* C07 part (a) (+ family-level C01/C02 statements for the derivative family):
+   FirstDerivative / SecondDerivative compute the documented stencils; their
+   hand-written forward / adjoint pairs are adjoint and linear, for every size.
+   Final statements only. *)
+From Coq Require Import QArith Qcanon List.
+From PV Require Import Dict Vec Dot QcInst Slice Deriv Deriv2 DerivSpec DerivStencil DerivND.
+Import ListNotations.
+Open Scope nat_scope.
+
+(* --- documented stencil, row by row (all sizes n >= the size the code needs, all rows, all inputs) --- *)
+Theorem C07a_sd_meets_spec : forall (F : FieldS) k e s (x : list F) i, i < length x -> sd_minsize k e <= length x ->
+  nth i (sd_fwd F k e s x) (r0 F) = sd_spec F k e s (length x) i x.
+Proof. exact sd_meets_spec. Qed.
+Print Assumptions C07a_sd_meets_spec.
+Theorem C07a_fd_meets_spec : forall (F : FieldS) k o e s (x : list F) i, i < length x -> fd_minsize k o e <= length x ->
+  nth i (fd_fwd F k o e s x) (r0 F) = fd_spec F k o e s (length x) i x.
+Proof. exact fd_meets_spec. Qed.
+Print Assumptions C07a_fd_meets_spec.
+(* hypotheses are satisfiable by non-trivial objects: 5 quadratic samples, 5-point stencil with edges *)
+Example C07a_fd_centered5_example : map this (fd_fwd QcF Centered true true q1 xsq) = [1#1; 2#1; 4#1; 6#1; 7#1]%Q.
+Proof. exact fd_example. Qed.
+Example C07a_sd_example : map this (sd_fwd QcF Centered true q1 xsq) = [2#1; 2#1; 2#1; 2#1; 2#1]%Q.
+Proof. exact sd_example. Qed.
+
+(* --- C01 at family level: the hand-written pairs are adjoint for every size --- *)
+Theorem C01_fd_adjoint : forall (F : FieldS) k o e s (x y : list F), length x = length y -> fd_minsize k o e <= length x ->
+  dotu F (fd_fwd F k o e s x) y = dotu F x (fd_adj F k o e s y).
+Proof. exact fd_adjoint. Qed.
+Print Assumptions C01_fd_adjoint.
+Theorem C01_sd_adjoint : forall (F : FieldS) k e s (x y : list F), length x = length y -> sd_minsize k e <= length x ->
+  dotu F (sd_fwd F k e s x) y = dotu F x (sd_adj F k e s y).
+Proof. exact sd_adjoint. Qed.
+Print Assumptions C01_sd_adjoint.
+(* the guard 4 <= n of kind='centered', order=5, edge=True is sharp: at n = 3 the code runs and is NOT adjoint *)
+Theorem C01_fd_c5_edge_n3_refuted : exists x y : list Qc, length x = 3 /\ length y = 3 /\
+  dotu QcR (fd_fwd QcF Centered true true q1 x) y <> dotu QcR x (fd_adj QcF Centered true true q1 y).
+Proof. exact fd_c5_edge_n3_refuted. Qed.
+Print Assumptions C01_fd_c5_edge_n3_refuted.
+
+(* --- C02 at family level --- *)
+Theorem C02_fd_fwd_linear : forall (F : FieldS) k o e s n, fd_minsize k o e <= n -> LinearOn F n (fd_fwd F k o e s).
+Proof. exact fd_fwd_linear. Qed.
+Print Assumptions C02_fd_fwd_linear.
+Theorem C02_fd_adj_linear : forall (F : FieldS) k o e s n, fd_minsize k o e <= n -> LinearOn F n (fd_adj F k o e s).
+Proof. exact fd_adj_linear. Qed.
+Print Assumptions C02_fd_adj_linear.
+Theorem C02_sd_fwd_linear : forall (F : FieldS) k e s n, sd_minsize k e <= n -> LinearOn F n (sd_fwd F k e s).
+Proof. exact sd_fwd_linear. Qed.
+Print Assumptions C02_sd_fwd_linear.
+Theorem C02_sd_adj_linear : forall (F : FieldS) k e s n, sd_minsize k e <= n -> LinearOn F n (sd_adj F k e s).
+Proof. exact sd_adj_linear. Qed.
+Print Assumptions C02_sd_adj_linear.
+(* any map with an adjoint (w.r.t. the bilinear pairing) is linear *)
+Theorem C02_adjoint_pair_linear : forall (R : CRing) n m f g, AdjPair R n m f g ->
+  (forall y, length y = m -> length (g y) = n) -> LinearOn R m g.
+Proof. exact adjpair_linear_r. Qed.
+Print Assumptions C02_adjoint_pair_linear.
+
+(* --- slicing primitives --- *)
+Theorem C01_embed_slice_adj : forall (R : CRing) n a (v w : list R), length w = n -> a + length v <= n ->
+  dotu R (embed R n a v) w = dotu R v (slice R a (a + length v) w).
+Proof. exact embed_slice_adj. Qed.
+Print Assumptions C01_embed_slice_adj.
+
+(* --- Laplacian (2-D): the composition as coded (kind and edge forwarded to every axis) computes the
+   documented Laplacian, for every kind / edge / weights / samplings and every admissible n0 x n1 array --- *)
+Theorem C07a_laplacian_meets_doc : forall (F : FieldS) k e w0 w1 s0 s1 n0 n1 (X : list (list F)),
+  length X = n0 -> Forall (fun r => length r = n1) X -> sd_minsize k e <= n0 -> sd_minsize k e <= n1 ->
+  lap2_coded F k e w0 w1 s0 s1 n0 n1 X = lap2_doc F k e w0 w1 s0 s1 n0 n1 X.
+Proof. exact lap2_meets_doc. Qed.
+Print Assumptions C07a_laplacian_meets_doc.
+Example C07a_laplacian_example :
+  map (map this) (lap2_coded QcF Forward false q1 q1 q1 q1 3 3 X33) = [[2#1; 0#1; 0#1]; [0#1; 0#1; 0#1]; [0#1; 0#1; 0#1]]%Q.
+Proof. exact lap2_example. Qed.
